@@ -369,8 +369,8 @@ def run(ctx, only_oracle=False):
     batches = []
     run_corpus(ctx, res, batches)
     run_shipped(ctx, res, batches, big=True)
-    run_generated(ctx, res, ctx.n(220, 4000), 't2data_rw', batches)
-    run_fortran(ctx, res, ctx.n(40, 600), batches)
+    run_generated(ctx, res, ctx.n(220, 9000), 't2data_rw', batches)
+    run_fortran(ctx, res, ctx.n(40, 1500), batches)
     flush(res, batches, ctx)
     res.exhaustive = False
     return res
